@@ -3,6 +3,6 @@ CONSTANTS
   Sources <- SrcQuick
   MaxInst = 2
 VIEW View
-INVARIANTS TypeOK
+INVARIANTS TypeOK SeqOK
 PROPERTIES Accepts LoopVisits
 CHECK_DEADLOCK FALSE
